@@ -280,6 +280,17 @@ Fixpoint eval (e : expr) (s : rstate) {struct e} : res rval :=
   | ETimestamp =>
       ROk (RInt (if time_is_zero (time_reg s) then now_sec E else time_unix (time_reg s))) s
   | EGetfilename => ROk (RStr file) s
+  | EIncr dec m ks =>
+      (* x++ as a value: the datum is obtained, incremented and stamped; the
+         value is the NEW one (the checker types the postfix expression Int and
+         the implementation leaves the incremented value: docs are silent) *)
+      bind (eval_keys ks s) (fun keys s1 =>
+        let (v, st) := obtain m keys (rs_store s1) in
+        match v with
+        | RInt z => let z' := if dec then i_sub z 1 else i_add z 1 in
+                    ROk (RInt z') (write m keys (RInt z') (with_store s1 st))
+        | _ => fail REType (with_store s1 st)
+        end)
   end
 with eval_keys (ks : exprs) (s : rstate) {struct ks} : res tuple :=
   match ks with
